@@ -64,13 +64,17 @@ def get : AMap β → Nat → Option β
   | [], _ => none
   | (k', v) :: m, k => if k = k' then some v else get m k
 
-/-- `m[k] = v` (replaces the first entry with key `k`, else inserts in key order) -/
-def set : AMap β → Nat → β → AMap β
+def replace : AMap β → Nat → β → AMap β
+  | [], _, _ => []
+  | (k', v') :: m, k, v => if k = k' then (k, v) :: m else (k', v') :: replace m k v
+
+def insertSorted : AMap β → Nat → β → AMap β
   | [], k, v => [(k, v)]
-  | (k', v') :: m, k, v =>
-    if k = k' then (k, v) :: m
-    else if k < k' then (k, v) :: (k', v') :: m
-    else (k', v') :: set m k v
+  | (k', v') :: m, k, v => if k < k' then (k, v) :: (k', v') :: m else (k', v') :: insertSorted m k v
+
+/-- `m[k] = v` (replaces the entry with key `k` if there is one, else inserts in key order) -/
+def set (m : AMap β) (k : Nat) (v : β) : AMap β :=
+  if (get m k).isSome then replace m k v else insertSorted m k v
 
 /-- `delete(m, k)` -/
 def erase : AMap β → Nat → AMap β
@@ -418,24 +422,36 @@ def setInterleaving (q : PQ α) (enabled : Bool) : PQ α × Option Err :=
       | .wfq w => ({ q with policy := .wfq (WFQ.new w) }, none)
     else ({ q with policy := .msg {} }, none)
 
-def push (q : PQ α) (c : Chunk) : PQ α :=
-  let p := match q.policy with
-    | .msg m => Policy.msg (m.push c)
-    | .rr r => .rr (r.push c)
-    | .wfq w => .wfq (w.push c)
-  { q with policy := p, nBytes := q.nBytes + c.len, nChunks := q.nChunks + 1 }
+def policyPush (p : Policy α) (c : Chunk) : Policy α :=
+  match p with
+  | .msg m => .msg (m.push c)
+  | .rr r => .rr (r.push c)
+  | .wfq w => .wfq (w.push c)
 
-def peek (q : PQ α) : PQ α × PeekRes :=
-  match q.policy with
-  | .msg m => (q, .chunk m.peek)
-  | .rr r => let (r', x) := r.peek; ({ q with policy := .rr r' }, x)
-  | .wfq w => let (w', x) := w.peek; ({ q with policy := .wfq w' }, x)
+def policyPeek (p : Policy α) : Policy α × PeekRes :=
+  match p with
+  | .msg m => (.msg m, .chunk m.peek)
+  | .rr r => let (r', x) := r.peek; (.rr r', x)
+  | .wfq w => let (w', x) := w.peek; (.wfq w', x)
 
 def policyPop (p : Policy α) (c : Chunk) : Policy α × PopRes :=
   match p with
   | .msg m => let (m', r) := m.pop c; (.msg m', r)
   | .rr r => let (r', x) := r.pop c; (.rr r', x)
   | .wfq w => let (w', x) := w.pop c; (.wfq w', x)
+
+def policyPopNil (p : Policy α) : Policy α × PopRes :=
+  match p with
+  | .msg m => let (m', r) := m.popNil; (.msg m', r)
+  | .rr r => let (r', x) := r.popNil; (.rr r', x)
+  | .wfq w => let (w', x) := w.popNil; (.wfq w', x)
+
+def push (q : PQ α) (c : Chunk) : PQ α :=
+  { q with policy := policyPush q.policy c, nBytes := q.nBytes + c.len, nChunks := q.nChunks + 1 }
+
+def peek (q : PQ α) : PQ α × PeekRes :=
+  let (p, r) := policyPeek q.policy
+  ({ q with policy := p }, r)
 
 def pop (q : PQ α) (c : Chunk) : PQ α × PopRes :=
   let (p, r) := policyPop q.policy c
@@ -447,10 +463,7 @@ def pop (q : PQ α) (c : Chunk) : PQ α × PopRes :=
 
 /-- `pop(nil)`; when the policy returns nil for a nil chunk the wrapper dereferences it. -/
 def popNil (q : PQ α) : PQ α × PopRes :=
-  let (p, r) := match q.policy with
-    | .msg m => let (m', r) := m.popNil; (Policy.msg m', r)
-    | .rr r => let (r', x) := r.popNil; (.rr r', x)
-    | .wfq w => let (w', x) := w.popNil; (.wfq w', x)
+  let (p, r) := policyPopNil q.policy
   ({ q with policy := p }, r)
 
 def contents (q : PQ α) : List Chunk :=
